@@ -28,6 +28,7 @@ ASSUMPTIONS = [
     "an output equal to the upper end of the range (360.0) is accepted: numpy's float modulo of a tiny negative number rounds to the period",
     "periodic data of NdInterpolator are returned in [0, period) whatever discontinuity was declared (the code passes discont=period); the property only asks for an equivalent angle",
     "floating point rounding is not modelled (dyadic inputs make both sides take the same branches)",
+    "the element-wise translator harness/translate_pointwise.py (Python AST -> Coq text over R, fail-closed) is trusted to map each accepted construct to its meaning: tools/math.py wrapped_difference -> Generated/MathSrc.v",
 ]
 
 PERIODS = [360.0, 360.0, 360.0, 400.0, 24.0, 2.0]
